@@ -39,6 +39,12 @@ def run_tv_jobs(rep, jobs, verbose=False, fn=tv_job, timeout=300):
         key = job['key']
         spec = job['spec']
         if not out['ok']:
+            if 'spec reuses a fingerprint' in str(out['error']) or 'spec reuses an initial value fingerprint' in str(out['error']):
+                # a randomly generated program in which two different weight sums / initial values carry the same
+                # fingerprint cannot be decided by value binding: inconclusive, not a verdict (the message is about the
+                # generated SPEC, never about what PyRates emitted)
+                rep.inconcl(dict(key=key, what=f"generated program not decidable by fingerprints: {str(out['error'])[:200]}"))
+                continue
             rep.harness_error(f"{key}: {out['error']} {out.get('tb', '')[-400:]}")
             continue
         rep.add_stats(out['stats'])
